@@ -10,13 +10,25 @@
 (* length when the phase started and its current length.                   *)
 (*   Order                the sequence of the backup's phases (the code's  *)
 (*                        order is loose, dump, idx, packs, rest)          *)
+(*   Incremental, PrevIdx, IdxByChecksum                                   *)
+(*                        with --link-dest rsync does not transfer a file  *)
+(*                        whose size and modification time (whole seconds) *)
+(*                        equal those of the previous backup's copy: it    *)
+(*                        hard-links the old one.  Loose files are         *)
+(*                        immutable and packs only grow, but a fresh dump  *)
+(*                        of the index made in the same second as the      *)
+(*                        previous one usually has the same size (SQLite   *)
+(*                        pages).  IdxByChecksum = the dump is compared by *)
+(*                        content (the code after the repair)              *)
 (*   RestCopiesLiveIndex  the last phase also copies the live index side   *)
 (*                        files (what the code did before the repair): the *)
 (*                        backup's index then is the index at that time    *)
 (***************************************************************************)
 EXTENDS Integers, Sequences, FiniteSets, TLC
 
-CONSTANTS Keys, Loose0, Packed0, AddKeys, DirectKeys, PackRounds, CleanRounds, Order, RestCopiesLiveIndex
+CONSTANTS Keys, Loose0, Packed0, AddKeys, DirectKeys, PackRounds, CleanRounds, Order, RestCopiesLiveIndex,
+          PrevIdx,          \* incremental backup: the index of the previous backup (rsync --link-dest), {} when there is none
+          Incremental, IdxByChecksum
 
 VARIABLES sl, sp, si,             \* source: loose files, pack extents (sequence of keys), committed rows [k, pos]
           ptodo, ppc, rounds, crounds,  \* packer / cleaner: what is being packed, pc, rounds left
@@ -97,8 +109,12 @@ BLooseAll == /\ Phase = "loose" /\ bl' = bl \cup (sl \ seen) /\ seen' = seen \cu
              /\ UNCHANGED <<bi, bp, existed>> /\ SrcUnch
 BDump == /\ Phase = "dump" /\ bi' = si /\ Advance
          /\ UNCHANGED <<bl, bp, seen, existed>> /\ SrcUnch
-BIdx == /\ Phase = "idx" /\ Advance                     \* the dump (a private temporary file) is copied
-        /\ UNCHANGED <<bl, bi, bp, seen, existed>> /\ SrcUnch
+(* the dump (a private temporary file) is copied -- or, if rsync's quick check takes it for unchanged, the previous
+   backup's index is linked instead *)
+BIdx == /\ Phase = "idx" /\ Advance
+        /\ \/ bi' = bi
+           \/ Incremental /\ ~IdxByChecksum /\ bi' = PrevIdx
+        /\ UNCHANGED <<bl, bp, seen, existed>> /\ SrcUnch
 BPacks(n) == /\ Phase = "packs" /\ n \in plen0..Len(sp) /\ bp' = SubSeq(sp, 1, n) /\ Advance
              /\ UNCHANGED <<bl, bi, seen, existed>> /\ SrcUnch
 BRest(live) == /\ Phase = "rest" /\ live = RestCopiesLiveIndex /\ bi' = (IF live THEN si ELSE bi) /\ Advance
